@@ -3,6 +3,7 @@ package checks
 import (
 	"context"
 	"fmt"
+	"sort"
 	"sync"
 	"testing"
 	"time"
@@ -23,7 +24,7 @@ import (
 
 // C11 — cancelled or failed replication requests do not wedge later replication.
 
-var c11Points = []string{"never", "before-call", "replicator.slot.before", "replicator.slot.dequeued", "parked-fetch", "replicator.fetch.done", "replicator.entry.beforeDone", "replicator.loadend.emit", "replicator.load.registered", "failed-fetch"}
+var c11Points = []string{"never", "before-call", "replicator.slot.before", "replicator.slot.dequeued", "parked-fetch", "replicator.fetch.done", "replicator.entry.beforeDone", "replicator.loadend.emit", "replicator.load.registered", "failed-fetch", "failed-parent", "aborted-parent"}
 
 type ReqC11 struct {
 	Heads []int  `json:"heads"` // indices into the honest entries (mod len)
@@ -163,7 +164,7 @@ func execC11(c CaseC11) *Outcome {
 		arrivals := 0
 		fired := false
 		remove := func() {}
-		if rq.Point != "never" && rq.Point != "before-call" && rq.Point != "parked-fetch" && rq.Point != "failed-fetch" {
+		if rq.Point != "never" && rq.Point != "before-call" && rq.Point != "parked-fetch" && rq.Point != "failed-fetch" && rq.Point != "failed-parent" && rq.Point != "aborted-parent" {
 			remove = world.AddHook(func(name string, subject interface{}, args []interface{}) {
 				if name != rq.Point || subject != interface{}(v.Replicator()) {
 					return
@@ -220,6 +221,68 @@ func execC11(c CaseC11) *Outcome {
 				}
 			}
 			pv.SetGate(false)
+		case "failed-parent", "aborted-parent":
+			// exactly one block is not obtained - the n-th parent link of an entry with several parents (an entry
+			// written after two writers' branches were merged), every other block of the request is served: the read
+			// fails, or the request is cancelled while that read is the only one outstanding
+			var target string
+			seen := map[string]bool{}
+			stack := append([]ipfslog.Entry{}, heads...)
+			for len(stack) > 0 && target == "" {
+				e := stack[0]
+				stack = stack[1:]
+				if e == nil || seen[e.GetHash().String()] {
+					continue
+				}
+				seen[e.GetHash().String()] = true
+				if nx := e.GetNext(); len(nx) >= 2 {
+					target = nx[(rq.Nth-1)%len(nx)].String()
+				}
+				for _, n := range e.GetNext() {
+					if pe := entryOf(n.String()); pe != nil {
+						stack = append(stack, pe)
+					}
+				}
+			}
+			if target == "" || world.Has(v, target) {
+				_ = v.Sync(rctx, heads)
+				break
+			}
+			pv.SetGate(true)
+			_ = v.Sync(rctx, heads)
+			hit := false
+			until := time.Now().Add(3 * time.Second)
+			for time.Now().Before(until) {
+				ps := pv.Parked()
+				if len(ps) == 0 {
+					if cl.W.WaitQuiescent([]iface.Store{v}, nil, 20*time.Millisecond) {
+						break
+					}
+					continue
+				}
+				if len(ps) == 1 && ps[0].Cid.String() == target {
+					hit = true
+					abortedWithWork = true
+					if rq.Point == "failed-parent" {
+						// (that block stays unreadable for as long as the request lasts: every read of it fails)
+						pv.FailParked(0, fmt.Errorf("simulated read failure"))
+						continue
+					}
+					cancel()
+					time.Sleep(200 * time.Microsecond)
+					break
+				}
+				for k, f := range ps {
+					if f.Cid.String() != target {
+						pv.ReleaseParked(k)
+						break
+					}
+				}
+			}
+			pv.SetGate(false)
+			if hit {
+				o.Labels = append(o.Labels, "one-parent-of-a-merge-entry-not-obtained")
+			}
 		default:
 			_ = v.Sync(rctx, heads)
 		}
@@ -248,9 +311,25 @@ func execC11(c CaseC11) *Outcome {
 		if cl.Stores[a].OpLog().Len() == 0 {
 			continue
 		}
-		finalHeads = append(finalHeads, world.Heads(cl.Stores[a])...)
 		for _, h := range world.HashSet(cl.Stores[a]) {
 			want[h] = true
+		}
+	}
+	// the heads of the union of the authors' logs (an author's own head that another author has built upon is not
+	// announced separately: what lies below a merge entry is only reachable through it)
+	{
+		named := map[string]bool{}
+		for h := range want {
+			if e := entryOf(h); e != nil {
+				for _, n := range e.GetNext() {
+					named[n.String()] = true
+				}
+			}
+		}
+		for _, h := range honestOrderOf(want) {
+			if !named[h] {
+				finalHeads = append(finalHeads, entryOf(h))
+			}
 		}
 	}
 	finalHeads, err = cloneHeads(finalHeads)
@@ -321,6 +400,16 @@ func reqSummary(rs []ReqC11) string {
 		s += fmt.Sprintf("[%d heads, cancel at %s #%d]", len(r.Heads), r.Point, r.Nth)
 	}
 	return s
+}
+
+// honestOrderOf lists the keys of set in a fixed order.
+func honestOrderOf(set map[string]bool) []string {
+	out := make([]string, 0, len(set))
+	for h := range set {
+		out = append(out, h)
+	}
+	sort.Strings(out)
+	return out
 }
 
 func TestC11(t *testing.T)     { runCheck(t, "C11", genC11, execC11) }
